@@ -401,6 +401,17 @@ def check_pair(ctx, prog, ru, rc, prop):
         if m is None and kind in ('instruction', 'expansion', 'data') and \
                 any(t in lu for t in _re.findall(r'[A-Za-z_][A-Za-z_0-9]*', text.split('#')[0])[1:]):
             m = {'kind': 'label-dependent', 'label': None, 'line': i, 'text': text}
+        # a transfer whose target is a CONSTANT (an absolute position): the offsets differ with the position of the
+        # transfer, the absolute target must be the constant in both modes
+        cu = dict(ru['constants'])
+        toks_ = [t for t in text.split('#')[0].replace(',', ' ').split() if t]
+        if m is None and kind in ('instruction', 'expansion') and toks_ and toks_[0].lower() in TRANSFER_HEADS and toks_[-1] in cu:
+            ta, tb = transfer_target(a), transfer_target(b)
+            if ta is None or tb is None or ta[0] != cu[toks_[-1]] or tb[0] != cu[toks_[-1]] or ta[1] != tb[1]:
+                ctx.cex('line {} "{}": transfer to the absolute position {} reaches {} without and {} with compression'.format(
+                    i, text[:60], cu[toks_[-1]], ta, tb), inp, [ta, tb], cu[toks_[-1]],
+                    {'kind': 'meaning-differs', 'line-kind': kind, 'ref': 'constant-target', 'scenario': prog.get('scenario')})
+            continue
         why = None
         if kind in ('string', 'data') and not m:
             if b''.join(r['bytes'] for r in a) != b''.join(r['bytes'] for r in b):
